@@ -94,6 +94,35 @@ def subReps (w : World) : Nat → Nat → List Nat
     (listing (w.op c).graph).flatMap (fun n =>
       if (w.op n).isComp then w.repCount (w.op n).rep :: subReps w f n else [])
 
+/-! `dump`: the whole heap as one JSON line (read by tools/gen_c10_programs.py). -/
+
+def durCode : Dur → String
+  | .fixed d => s!"f{d}" | .reg k => s!"r{k}" | .decoupling => "d"
+  | .glob .ro => "gR" | .glob .mw => "gM" | .glob .fl => "gF" | .glob .rs => "gS"
+
+def relCode : Rel → String
+  | .fb => "FB" | .js => "JS" | .je => "JE"
+
+def jsonList (xs : List String) : String := "[" ++ ",".intercalate xs ++ "]"
+
+def dumpOp (o : Op) : String :=
+  let ints := jsonList (o.ints.map (fun x => match x with | none => "null" | some v => toString v))
+  let rep := match o.rep with | .fixed n => s!"f{n}" | .reg k => s!"r{k}"
+  let graph := jsonList (o.graph.map (fun e =>
+    jsonList [toString e.node, (match e.parent with | none => "-1" | some p => toString p),
+              jsonList (e.key.map toString)]))
+  "{" ++ s!"\"cls\":\"{o.cls.name}\",\"qs\":{jsonList (o.qs.map toString)},\"chan\":\"{chanCode o.chan}\"," ++
+    s!"\"dur\":\"{durCode o.dur}\",\"link\":{o.link},\"tag\":{o.tag},\"reg\":{o.reg},\"ints\":{ints}," ++
+    s!"\"rep\":\"{rep}\",\"graph\":{graph}" ++ "}"
+
+def dumpWorld (s : Sess) : String :=
+  let w := s.w
+  let links := jsonList (w.links.toList.map (fun l =>
+    jsonList [if l.multi then "1" else "0", jsonList (l.refs.map toString), "\"" ++ relCode l.rel ++ "\""]))
+  let dreg := jsonList (w.dreg.map (fun p => jsonList [toString p.1, toString p.2]))
+  "{" ++ s!"\"ops\":{jsonList (w.ops.toList.map dumpOp)},\"links\":{links},\"dreg\":{dreg}," ++
+    s!"\"circs\":{jsonList (s.circs.toList.map toString)}" ++ "}"
+
 def step (s : Sess) (toks : List String) : Sess × String :=
   let bad := (s, "bad-op")
   match toks with
@@ -156,6 +185,12 @@ def step (s : Sess) (toks : List String) : Sess × String :=
       let (w, out) := showListing s.w s.circs[c]!
       ({ s with w := w }, out)
     | none => bad
+  | ["ops", c] =>
+    match c.toNat? with
+    | some c => if c ≥ s.circs.size then bad else
+      let (w, ops) := s.w.operations s.circs[c]!
+      ({ s with w := w }, toString ops.length)
+    | none => bad
   | ["dur", c] =>
     match c.toNat? with
     | some c => if c ≥ s.circs.size then bad else
@@ -189,7 +224,16 @@ def step (s : Sess) (toks : List String) : Sess × String :=
     | some c => if c ≥ s.circs.size then bad else
       (s, showInts ((subReps s.w s.w.depthFuel s.circs[c]!).map Int.ofNat))
     | none => bad
+  | ["copyobs", c] =>
+    match c.toNat? with
+    | some c => if c ≥ s.circs.size then bad else
+      let (w, cp) := s.w.copy s.circs[c]!
+      let (w, out) := showListing w cp
+      ({ s with w := w }, out)
+    | none => bad
+  | ["dump"] => (s, dumpWorld s)
   | ["warnings"] => (s, toString s.w.warnings)
+  | ["collisions"] => (s, toString s.w.collisions)
   | _ => bad
 
 end Qco.Driver
